@@ -1,5 +1,5 @@
 (* C16 — Status byte and IEEE 488.2 common commands follow the 488.2 status model. *)
-From VF Require Import Base Gen_Errors Status Status_proofs Contrib ContribSpec Contrib_proofs.
+From VF Require Import Base Gen_Errors Status Status_proofs Contrib ContribSpec Contrib_proofs Grammar MessageSpec ContribMeaning ContribMeaning_proofs.
 Open Scope N_scope.
 
 (* Bit k of the *STB? answer, for EVERY device state (hence every reachable one), both values of
@@ -69,6 +69,23 @@ Theorem C16_full_stack_refines_iff : forall d,
   <-> queue_printable d = true.
 Proof. exact contrib_refines_ops_iff. Qed.
 
+(* ... and for EVERY well-formed program message addressed to the mandated tree, in any spelling (short / long
+   mnemonics, any case, absolute or relative headers, default nodes spelled or omitted, any layout) and with any data
+   elements (right, wrong, missing, too many): [message_ops m] (ContribMeaning.v) reads the message as a list of
+   operations through the designation relation of HeaderSpec.v, and in every state reachable from power-on the full
+   stack computes the operation-level result: same device state, same returned error, same response bytes (up to
+   one unit separator left in the buffer of a message that FAILS on the query form of a command without one,
+   characterised exactly by [stray_separator]). *)
+Theorem C16_full_stack_all_messages : forall ms (m : msg) (mav : bool) (us : list sop),
+  wf_msg m = true -> message_ops m = Some us ->
+  dev_message (session_msgs dev_init ms) mav (render_msg m)
+  = Val (with_stray m (op_message (session_msgs dev_init ms) mav us)).
+Proof. exact contrib_refines_ops_sep_session. Qed.
+Theorem C16_full_stack_all_messages_exact : forall (m : msg) (mav : bool) (d : dev) (us : list sop),
+  wf_msg m = true -> queue_printable d = true -> message_ops m = Some us ->
+  (dev_message d mav (render_msg m) = Val (op_message d mav us) <-> stray_separator m = false).
+Proof. exact contrib_refines_ops_all_iff. Qed.
+
 Print Assumptions C16_stb_bits.
 Print Assumptions C16_summary_iff.
 Print Assumptions C16_stb_pure.
@@ -79,3 +96,5 @@ Print Assumptions C16_opcq_tst_answers.
 Print Assumptions C16_rst_wai_frame.
 Print Assumptions C16_full_stack_refines.
 Print Assumptions C16_full_stack_refines_iff.
+Print Assumptions C16_full_stack_all_messages.
+Print Assumptions C16_full_stack_all_messages_exact.
